@@ -5,11 +5,19 @@ go 1.23
 replace github.com/hprose/hprose-golang/v3 => /repo
 
 require (
+	github.com/fasthttp/websocket v1.5.0
 	github.com/google/uuid v1.3.0
 	github.com/hprose/hprose-golang/v3 v3.0.0-00010101000000-000000000000
+	github.com/valyala/fasthttp v1.37.0
 )
 
-require github.com/orcaman/concurrent-map v1.0.0 // indirect
+require (
+	github.com/andybalholm/brotli v1.0.4 // indirect
+	github.com/klauspost/compress v1.15.0 // indirect
+	github.com/orcaman/concurrent-map v1.0.0 // indirect
+	github.com/savsgio/gotils v0.0.0-20211223103454-d0aaa54c5899 // indirect
+	github.com/valyala/bytebufferpool v1.0.0 // indirect
+)
 
 require (
 	github.com/andot/complexconv v1.0.0 // indirect
